@@ -404,7 +404,11 @@ def loss_new(sess, op, step, out, stats, log):
             targ = [int(v) for v in op["obs_t"]]
         else:
             targ = np.array(op["obs_t"], float)
-        obj = cls(theta0, sess.ode, sess.x0.copy(), sess.t0, targ, y, sname, **kw)
+        x0arg = sess.x0.copy()
+        if op.get("x0_as") in ("int_array", "int_list") and np.all(sess.x0 == np.round(sess.x0)):
+            # whole-number initial states handed over with an integer type (counts of people)
+            x0arg = np.array([int(v) for v in sess.x0], dtype=int) if op["x0_as"] == "int_array" else [int(v) for v in sess.x0]
+        obj = cls(theta0, sess.ode, x0arg, sess.t0, targ, y, sname, **kw)
     except core.RunTimeout:
         raise
     except Exception as e:
@@ -1292,6 +1296,7 @@ def gen_loss_def(rng, lid, ref, name, theta_true, x0, t0, tmax, box, pos, classe
     if ns == 1:
         d["y_flat"] = rng.random() < 0.7
         d["state_as_str"] = rng.random() < 0.5
+    d["x0_as"] = rng.choice(["array", "array", "int_array", "int_list"])
     # spread
     if cls in ("NormalLoss", "GammaLoss", "NegBinomLoss") and rng.random() < 0.7:
         if rng.random() < 0.5:
